@@ -196,9 +196,9 @@ Definition parse_get_name (b : bytes) : res bytes :=
     LE); SipHash-1-3 of that stream is the cache key. *)
 Definition hkey (p : parse) : bytes * Z * list Z := (p_query p, p_np p, p_types p).
 
-Definition le_bytes (n : nat) (z : Z) : bytes :=
-  (fix go (k : nat) (u : Z) : bytes := match k with O => [] | S k' => Z.to_N (u mod 256) :: go k' (u / 256) end)
-    n (z mod 2 ^ (8 * Z.of_nat n)).
+Fixpoint le_go (k : nat) (u : Z) : bytes :=
+  match k with O => [] | S k' => Z.to_N (u mod 256) :: le_go k' (u / 256) end.
+Definition le_bytes (n : nat) (z : Z) : bytes := le_go n (z mod 2 ^ (8 * Z.of_nat n)).
 Definition hstream (k : bytes * Z * list Z) : bytes :=
   let '(q, np, tys) := k in
   q ++ [255%N] ++ le_bytes 2 np ++ le_bytes 8 (Z.of_nat (length tys)) ++ flat_map (le_bytes 4) tys.
@@ -229,10 +229,12 @@ Fixpoint take_n (n : nat) (s : bytes) : option (bytes * bytes) :=
   end.
 
 (* messages.rs:971-988: param_len > 0 => copy that many bytes (assert remaining >= len);
-   otherwise (NULL = -1, empty = 0, any other negative) an empty value *)
+   otherwise (NULL = -1, empty = 0, any other negative) an empty value.  (The real code first
+   allocates and fills param_len bytes, then asserts: a time/memory cost, not a result.) *)
 Definition get_param (s : bytes) : res ((Z * bytes) * bytes) :=
   '(pl, r) <- get_i32 s ;;
   if 0 <? pl then
+    if blen r <? pl then Panic else
     match take_n (Z.to_nat pl) r with Some (v, r') => Ok ((pl, v), r') | None => Panic end
   else Ok ((pl, []), r).
 
@@ -375,12 +377,13 @@ Definition describe_canonical (b : bytes) : bool :=
 
 (** Structured values a round trip preserves *)
 Definition parse_wf (p : parse) : bool :=
-  byteb (p_code p) && negb (has0 (p_name p)) && negb (has0 (p_query p)) && cleanb (p_name p) && cleanb (p_query p)
+  byteb (p_code p) && forallb byteb (p_name p) && forallb byteb (p_query p)
+  && negb (has0 (p_name p)) && negb (has0 (p_query p)) && cleanb (p_name p) && cleanb (p_query p)
   && (0 <=? p_np p) && (p_np p <? 32768) && (Z.of_nat (length (p_types p)) =? p_np p) && forallb in_i32 (p_types p)
   && (p_len p =? 4 + (blen (p_name p) + 1) + (blen (p_query p) + 1) + 2 + 4 * p_np p) && in_i32 (p_len p).
 
 Definition desc_wf (p : descm) : bool :=
-  byteb (d_code p) && byteb (d_target p) && negb (has0 (d_name p)) && cleanb (d_name p)
+  byteb (d_code p) && byteb (d_target p) && forallb byteb (d_name p) && negb (has0 (d_name p)) && cleanb (d_name p)
   && (d_len p =? 4 + 1 + (blen (d_name p) + 1)) && in_i32 (d_len p).
 
 Definition param_wf (pv : Z * bytes) : bool :=
@@ -390,7 +393,8 @@ Definition bind_len (p : bindm) : Z :=
   + fold_right (fun pv a => 4 + fst pv + a) 0 (b_pvs p) + 2 + 2 * b_nrc p.
 (* no NULL parameters: see [c08_bind_null_param_*] in Props.v *)
 Definition bind_wf (p : bindm) : bool :=
-  byteb (b_code p) && negb (has0 (b_portal p)) && negb (has0 (b_stmt p)) && cleanb (b_portal p) && cleanb (b_stmt p)
+  byteb (b_code p) && forallb byteb (b_portal p) && forallb byteb (b_stmt p)
+  && negb (has0 (b_portal p)) && negb (has0 (b_stmt p)) && cleanb (b_portal p) && cleanb (b_stmt p)
   && (0 <=? b_nfc p) && (b_nfc p <? 32768) && (Z.of_nat (length (b_fcs p)) =? b_nfc p) && forallb in_i16 (b_fcs p)
   && (0 <=? b_npv p) && (b_npv p <? 32768) && (Z.of_nat (length (b_pvs p)) =? b_npv p) && forallb param_wf (b_pvs p)
   && (0 <=? b_nrc p) && (b_nrc p <? 32768) && (Z.of_nat (length (b_rcs p)) =? b_nrc p) && forallb in_i16 (b_rcs p)
